@@ -80,6 +80,9 @@ func init() {
 			// error of a template is as much a function of its text as its output is
 			"<% if (true) { break } %>hello", "<% continue %>x", "<%= if (true) { %><% break %><% } %>y", "<% let f = fn() { continue } %>z",
 						"<%= f([1, g(2 %>", "<%= f(g(h([1, {a: k(2 %>", "<% if (true) { %><%= f([1, g(2 %>", "<%= f(1 %><%= g([2 %><%= h(3 %><%= k([4 %>", "<% let = 1 %><% let = 2 %><%= (1 + %><% let = 3 %>",
+			// run-time failures whose text quotes a name the parser made up (the placeholder of an indexed element
+			// that is nil): the same text on every parse
+			`<% let rows = [nil] %><%= rows[0].Name %>`, `<% let mm = {"k": nil} %>a<%= mm["k"].Name %>`, `<%= xs[0].Nope.Deep %>`, `<% let rows = [nil, nil] %><%= for (i) in [0, 1] { %><%= rows[i].F %><% } %>`,
 			// partials that include themselves (one text executing while another execution of the same text is pending)
 			`<%= partial("tree", {n: 3}) %>`, `<%= partial("tree", {n: 2}) %>|<%= partial("tree", {n: 1}) %>`, `<%= partial("ping", {n: 4}) %>`,
 		)
